@@ -29,18 +29,20 @@ Definition xsd_boolean_s : str := xsd_ns_s ++ [98; 111; 111; 108; 101; 97; 110].
 Definition s_true : str := [116; 114; 117; 101].
 Definition s_false : str := [102; 97; 108; 115; 101].
 
-Inductive tterm := TIri (u : str) | TLit (lex : str) (lang : option str) (dt : option str).
-Definition ttriple := (str * str * tterm)%type.
-Definition plan := list (str * list (str * list tterm)).
+(* TBn: a blank node written as a label (_:id, what BNode.n3() gives); the subject of a triple is TIri or TBn *)
+Inductive tterm := TIri (u : str) | TBn (l : str) | TLit (lex : str) (lang : option str) (dt : option str).
+Definition ttriple := (tterm * str * tterm)%type.
+Definition plan := list (tterm * list (str * list tterm)).
 
 Definition tterm_eqb (a b : tterm) : bool :=
   match a, b with
   | TIri x, TIri y => str_eqb x y
+  | TBn x, TBn y => str_eqb x y
   | TLit l g d, TLit l' g' d' => str_eqb l l' && opt_eqb str_eqb g g' && opt_eqb str_eqb d d'
   | _, _ => false
   end.
 Definition ttriple_eqb (a b : ttriple) : bool :=
-  let '(s, p, o) := a in let '(s', p', o') := b in str_eqb s s' && str_eqb p p' && tterm_eqb o o'.
+  let '(s, p, o) := a in let '(s', p', o') := b in tterm_eqb s s' && str_eqb p p' && tterm_eqb o o'.
 
 Definition plan_triples (pl : plan) : list ttriple :=
   flat_map (fun sp => flat_map (fun po => map (fun o => (fst sp, fst po, o)) (snd po)) (snd sp)) pl.
@@ -73,6 +75,7 @@ Definition label_iri (q : qtab) (verb : bool) (u : str) : str :=
 Definition label_term (q : qtab) (t : tterm) : str :=
   match t with
   | TIri u => label_iri q false u
+  | TBn l => [95; 58] ++ l
   | TLit lex lang dt =>
     let quoted :=
       ttl_quote_encode lex ++
@@ -113,8 +116,8 @@ Definition write_preds (q : qtab) (ps : list (str * list tterm)) : str :=
   | (p, os) :: r => [32] ++ label_iri q true p ++ write_objs q os ++ flat_map (pred_more q) r
   end.
 (* statement + the newline serialize writes after it *)
-Definition write_stmt (q : qtab) (sp : str * list (str * list tterm)) : str :=
-  [10] ++ label_iri q false (fst sp) ++ write_preds q (snd sp) ++ [32; 46] ++ [10].
+Definition write_stmt (q : qtab) (sp : tterm * list (str * list tterm)) : str :=
+  [10] ++ label_term q (fst sp) ++ write_preds q (snd sp) ++ [32; 46] ++ [10].
 Definition prefix_line (pn : str * str) : str :=
   [64; 112; 114; 101; 102; 105; 120; 32] ++ fst pn ++ [58; 32; 60] ++ snd pn ++ [62; 32; 46; 10].
 Definition write_header (ns : nstab) : str := flat_map prefix_line ns.
@@ -195,11 +198,15 @@ Definition s_prefix_word : str := [64; 112; 114; 101; 102; 105; 120].
 Inductive rstate :=
 | RSubj                                   (* between statements *)
 | RPfx1 | RPfx2 (p : str) | RPfx3 (p ns : str)       (* inside an @prefix directive *)
-| RPred (s : str)
-| RObj (s p : str)
-| RStr (s p lex : str)                    (* a quoted string has been read, its @lang / ^^ may follow *)
-| RDt (s p lex : str)
-| RAfter (s p : str).
+| RPred (s : tterm)
+| RObj (s : tterm) (p : str)
+| RStr (s : tterm) (p lex : str)          (* a quoted string has been read, its @lang / ^^ may follow *)
+| RDt (s : tterm) (p lex : str)
+| RAfter (s : tterm) (p : str).
+
+(* BLANK_NODE_LABEL: a word that starts with _: *)
+Definition bn_word (w : str) : option str :=
+  match w with a :: b :: l => if (a =? 95) && (b =? 58) then Some l else None | _ => None end.
 
 Definition word_iri (env : nstab) (w : str) : option str :=
   if str_eqb w s_nil_word then Some rdf_nil_s else resolve_word env w.
@@ -218,9 +225,13 @@ Fixpoint run (env : nstab) (st : rstate) (toks : list token) (acc : list ttriple
     match st with
     | RSubj =>
       match t with
-      | KIri u => run env (RPred u) r acc
-      | KWord w => if str_eqb w s_prefix_word then run env RPfx1 r acc
-                   else match word_iri env w with Some u => run env (RPred u) r acc | None => None end
+      | KIri u => run env (RPred (TIri u)) r acc
+      | KWord w => match bn_word w with
+                   | Some l => run env (RPred (TBn l)) r acc
+                   | None =>
+                     if str_eqb w s_prefix_word then run env RPfx1 r acc
+                     else match word_iri env w with Some u => run env (RPred (TIri u)) r acc | None => None end
+                   end
       | _ => None
       end
     | RPfx1 => match t with
@@ -245,6 +256,9 @@ Fixpoint run (env : nstab) (st : rstate) (toks : list token) (acc : list ttriple
       | KIri u => run env (RAfter s p) r (acc ++ [(s, p, TIri u)])
       | KStr v => run env (RStr s p v) r acc
       | KWord w =>
+        match bn_word w with
+        | Some l => run env (RAfter s p) r (acc ++ [(s, p, TBn l)])
+        | None =>
         if is_int_lex w then run env (RAfter s p) r (acc ++ [(s, p, TLit w None (Some xsd_integer_s))])
         else if str_eqb w s_true || str_eqb w s_false
              then run env (RAfter s p) r (acc ++ [(s, p, TLit w None (Some xsd_boolean_s))])
@@ -252,6 +266,7 @@ Fixpoint run (env : nstab) (st : rstate) (toks : list token) (acc : list ttriple
              | Some u => run env (RAfter s p) r (acc ++ [(s, p, TIri u)])
              | None => None
              end
+        end
       | _ => None
       end
     | RStr s p v =>
